@@ -265,9 +265,31 @@ def run(ctx):
         for fmt in ("delimited", "fixed"):
             cases.append((fmt, [("decimal separator", dec), ("thousands separator", thou)]))
             cases.append((fmt, [("thousands separator", thou), ("decimal separator", dec)]))
+    # the separators together with every line delimiter setting (fixed-width data may have none at all)
+    for linedelim in ("any", "lf", "cr", "crlf", "none"):
+        for dec, thou in ((".", "."), (",", ","), (".", ","), (",", "")):
+            cases.append(("fixed", [("line delimiter", linedelim), ("decimal separator", dec), ("thousands separator", thou)]))
+            cases.append(("fixed", [("decimal separator", dec), ("thousands separator", thou), ("line delimiter", linedelim)]))
+            if linedelim != "none":
+                cases.append(("delimited", [("line delimiter", linedelim), ("decimal separator", dec), ("thousands separator", thou)]))
     for fmt in FORMATS:
         cases.append((fmt, []))  # defaults
     check_steps(ctx, cases, "consistency", claim_consistency)
+
+    # 4b. quoted strings with escapes: the character the Python string literal denotes -----------------------------------
+    from cutplace import data as data_
+    for text, code in (("'\\''", 39), ('"\\""', 34), ("'\\\\'", 92), ('"\\t"', 9), ("'\\x41'", 65), ("'\\u00e9'", 233), ("'\\101'", 65), ('"\\x27"', 39),
+                       ("'\\x22'", 34), ('"\\\\"', 92), ("'\\U0001F600'", 0x1F600), ('"\\N{SEMICOLON}"', 59)):
+        df = data_.DataFormat("delimited")
+        try:
+            df.set_property("item_delimiter", text)
+            got = ord(df.item_delimiter)
+        except Exception as error:  # noqa
+            got = core.classify_exception(error)
+        ctx.count(key=("escape-spelling", text), branch="escape-spelling")
+        if got != code:
+            ctx.violation("C11:spelling:escape:%s" % ("rejected" if not isinstance(got, int) else "other-character"),
+                          "item delimiter %s denotes U+%04X, got %r" % (text, code, got), {"text": text, "code": code, "got": got})
 
     # 5. malformed spellings (never accepted as some other character silently? compared with the model) ----------
     def claim_malformed(ctx, case, mkv, impl, msteps, mattrs, agree):
